@@ -136,8 +136,8 @@ func genConcPlan(prop string, seed uint64, thorough bool) *Plan {
 	}
 	// a short sequential prologue creates the typed keys
 	var pro []Item
-	for t, ks := range tk {
-		for _, k := range ks {
+	for _, t := range types {
+		for _, k := range tk[t] {
 			switch t {
 			case tString:
 				pro = append(pro, cmdItem("SET", k, strconv.Itoa(g.r.IntN(50))))
